@@ -95,6 +95,17 @@ static HAWK_INLINE slot_t* alloc_slot (hawk_arr_t* arr, void* dptr, hawk_oow_t d
 	return n;
 }
 
+static HAWK_INLINE void free_unplaced_slot (hawk_arr_t* arr, slot_t* slot)
+{
+	/* undo alloc_slot() for a slot that could not be placed in the array.
+	 * the data passed by the caller stays with the caller on failure.
+	 * only a copy made by a custom copier is destroyed here. */
+	if (arr->style->copier != HAWK_ARR_COPIER_SIMPLE &&
+	    arr->style->copier != HAWK_ARR_COPIER_INLINE &&
+	    arr->style->freeer) arr->style->freeer (arr, DPTR(slot), DLEN(slot));
+	hawk_gem_freemem (arr->gem, slot);
+}
+
 hawk_arr_t* hawk_arr_open (hawk_gem_t* gem, hawk_oow_t xtnsize, hawk_oow_t capa)
 {
 	hawk_arr_t* arr;
@@ -332,8 +343,7 @@ hawk_oow_t hawk_arr_insert (hawk_arr_t* arr, hawk_oow_t pos, void* dptr, hawk_oo
 
 			if (capa <= mincapa)
 			{
-				if (arr->style->freeer) arr->style->freeer (arr, DPTR(slot), DLEN(slot));
-				hawk_gem_freemem (arr->gem, slot);
+				free_unplaced_slot (arr, slot);
 				return HAWK_ARR_NIL;
 			}
 
@@ -344,8 +354,7 @@ hawk_oow_t hawk_arr_insert (hawk_arr_t* arr, hawk_oow_t pos, void* dptr, hawk_oo
 		if (pos >= arr->capa || arr->size >= arr->capa)  /* can happen if the sizer() callback isn't good enough */
 		{
 			/* the buffer is not still enough after resizing */
-			if (arr->style->freeer) arr->style->freeer (arr, DPTR(slot), DLEN(slot));
-			hawk_gem_freemem (arr->gem, slot);
+			free_unplaced_slot (arr, slot);
 			hawk_gem_seterrnum (arr->gem, HAWK_NULL, HAWK_EBUFFULL);
 			return HAWK_ARR_NIL;
 		}
